@@ -18,6 +18,7 @@ import re
 import os.path
 import unicodedata
 from collections.abc import Iterator
+from copy import copy
 from decimal import Decimal, DecimalException
 from string import ascii_letters
 from typing import cast, Optional, Union, NoReturn
@@ -628,14 +629,14 @@ def select__insert_before(self: XPathFunction, context: ta.ContextType = None) \
     insert_at_pos = max(0, position - 1)
 
     inserted = False
-    for pos, result in enumerate(self[0].select(context)):
+    for pos, result in enumerate(self[0].select(copy(context))):
         if not inserted and pos == insert_at_pos:
-            yield from self[2].select(context)
+            yield from self[2].select(copy(context))
             inserted = True
         yield result
 
     if not inserted:
-        yield from self[2].select(context)
+        yield from self[2].select(copy(context))
 
 
 @method(function('index-of', nargs=(2, 3), sequence_types=(
